@@ -121,4 +121,11 @@ def decodeVecOnto (pre s : List UInt8) : Res (Nat × List UInt8) := do
   let (r, o) ← decodeVec s
   pure (r, pre ++ o)
 
+/-- `Decode(text, len, buf, cap)` into a buffer that already holds `old` (`cap = old.length`): return value and the buffer
+afterwards — the decoded bytes followed by the old bytes behind them. Defined for the cases where the code stores exactly the
+bytes it returns (every success, and the refusals that happen before the first store). -/
+def decodeInto (old s : List UInt8) : Res (Nat × List UInt8) := do
+  let (r, out) ← decodeBuf s old.length
+  pure (r, out ++ old.drop out.length)
+
 end Tbox.C19.B64
